@@ -2527,6 +2527,8 @@ impl ContinuityStore {
             });
         }
 
+        #[cfg(rip_verif)]
+        rip_kernel::verif::point("compact.sched.before_spawn");
         let spawned = self.compaction_auto_spawn_job_v1(
             thread_id,
             CompactionAutoV1Request {
